@@ -28,6 +28,7 @@ type SpecEnv struct {
 	fnObj   *types.Func
 	pkgPath string
 	scope   *types.Scope // innermost scope for local lookups (may be nil)
+	midBody bool         // evaluated inside the body: parameter names mean current values
 	pos     token.Pos
 	nq      int
 	where   string
@@ -339,6 +340,17 @@ func (env *SpecEnv) evalIdent(st, old *State, id *ast.Ident) Val {
 		if _, obj := env.scope.LookupParent(name, env.pos); obj != nil {
 			if lv, ok := obj.(*types.Var); ok && !lv.IsField() && !isPkgLevel(lv) && c.paramObjs != nil && !c.paramObjs[lv] && c.headerNames[name] {
 				return c.readVarQuiet(st, lv)
+			}
+		}
+	}
+	if env.midBody && st != nil {
+		root := c
+		for root.headerObj == nil && root.parent != nil && !root.inlinedFunc {
+			root = root.parent
+		}
+		if obj := root.headerObj[name]; obj != nil {
+			if _, has := st.vars[obj]; has {
+				return c.readVarQuiet(st, obj)
 			}
 		}
 	}
@@ -852,6 +864,21 @@ func (env *SpecEnv) evalCall(st, old *State, x *ast.CallExpr) Val {
 			return Val{v.T, types.Typ[types.String]}
 		}
 		return Val{c.bytesToStr(st, v.T), types.Typ[types.String]}
+	case "wgcount":
+		// wgcount(wg): Add()s minus Done()s performed on wg by this unit so far
+		k := "$wg:" + exprString(x.Args[0])
+		if cur, ok := st.ghost[k]; ok {
+			return Val{cur, types.Typ[types.Int]}
+		}
+		return Val{IntLit(0), types.Typ[types.Int]}
+	case "substr":
+		// substr(s, lo, hi): the Go slice s[lo:hi] of a string
+		sv, lo, hi := arg(0), arg(1), arg(2)
+		if sv.T.Sort != SStr {
+			env.errf("substr() on non-string")
+			return sv
+		}
+		return Val{c.strSub(sv.T, lo.T, hi.T), sv.Ty}
 	case "min", "max":
 		a, b := arg(0), arg(1)
 		if name == "min" {
@@ -1222,6 +1249,7 @@ func (c *ExecCtx) specBoolIn(in *ExecCtx, st, old *State, cl SpecClause, pos tok
 
 func (c *ExecCtx) specInt(st, old *State, cl SpecClause, pos token.Pos, binds map[string]Val) *Term {
 	env := c.newEnv(binds, pos)
+	env.midBody = true // (only used for loop variants)
 	env.where = cl.Where
 	v := env.eval(st, old, cl.Expr)
 	if v.T == nil || v.T.Sort != SInt {
@@ -1395,6 +1423,7 @@ func (c *ExecCtx) execGhostWith(st *State, g *GhostAnchor, pos token.Pos, binds 
 	u := c.u
 	env := c.newEnv(binds, pos)
 	env.where = g.Where
+	env.midBody = true
 	for _, s := range g.Stmts {
 		switch x := s.(type) {
 		case *ast.AssignStmt:
